@@ -49,7 +49,8 @@ REQUIRED_CELLS = {
     'quick': ['mix_split:scalar', 'mix_split:array', 'mix_split:reuse', 'mix_split:xpkg=bottom', 'mix_split:xpkg=top',
               'mix_split:xpkg=both', 'moisture:xpkg=bottom', 'moisture:xpkg=top', 'moisture:xpkg=both', 'moisture:water-as-H2O,ID=None',
               'phase_split:xpkg', 'phase_split_seq:op=phases', 'phase_split_seq:op=lle', 'phase_split_seq:op=vle',
-              'phase_split_seq:op=copy_like', 'phase_split_seq:phases-grown', 'lle:xpkg', 'vle:xpkg',
+              'phase_split_seq:op=copy_like', 'phase_split_seq:phases-grown', 'lle:xpkg', 'vle:xpkg', 'vle:Q=0,int', 'vle:Q=0,float', 'vle:Q=nonzero,float', 'vle:Q=nonzero,int',
+              'vle:energy-checked',
               'moisture:via=adjust', 'moisture:via=mix_split', 'moisture:sufficient', 'moisture:insufficient,strict',
               'moisture:insufficient,lenient', 'moisture:reached', 'moisture:kind=M', 'moisture:ID=other',
               'partition:mode=fresh', 'partition:mode=reuse', 'partition:mode=inplace', 'partition:phi=mid',
@@ -92,14 +93,15 @@ SOLVER_REJECTIONS = (InfeasibleRegion, NoEquilibrium, NotImplementedError, Runti
 SOLVER_NUMERICAL = (ArithmeticError, AssertionError)
 
 
-def solver_call(ctx, site, what, fn, *args, region='any', **kw):
+def solver_call(ctx, site, what, fn, *args, region='any', numerical=None, **kw):
     """Call an lle/vle wrapper; documented solver rejections and numerical failures whose innermost
     thermosteam frame is outside separations.py end the case as 'rejected'."""
+    numerical = SOLVER_NUMERICAL if numerical is None else numerical
     try:
-        return ctx.call(site, fn, *args, allowed=SOLVER_REJECTIONS + SOLVER_NUMERICAL, region=region, **kw)
+        return ctx.call(site, fn, *args, allowed=SOLVER_REJECTIONS + numerical, region=region, **kw)
     except SOLVER_REJECTIONS as e:
         ctx.reject(f'{what}: {type(e).__name__}')
-    except SOLVER_NUMERICAL as e:
+    except numerical as e:
         frame = runner.innermost_frame(e)
         if frame.startswith('separations.'):
             ctx.fail(f'{site}|{region}|exc:{type(e).__name__}@{frame}', f'{type(e).__name__}: {str(e)[:300]}')
@@ -716,34 +718,54 @@ def prop_vle(ch, ctx):
         else:
             fl = ch.flows(f'c{c}.feed', n, -2, 2)
             if binary: fl = [v or 1.0 for v in fl]       # x / y specifications are defined for two-component feeds
+            if POOL[pid][1] and ch.int(f'c{c}.feed.only_locked', 0, 3) == 3:
+                # only the phase-locked (non-condensable) chemicals: nothing takes part in the equilibrium
+                fl = [(v or 1.0) if names[i] in POOL[pid][1] else 0.0 for i, v in enumerate(fl)]
             feed = mk(th, fl, fk, Tf, 101325.)
             F = np.array(fl, float); fkey = zp(fl)
         spec = ch.choice(f'c{c}.spec', ['xP', 'yP', 'xT', 'yT', 'VP'] if binary else
-                         ['VP', 'VP', 'TP', 'TP', 'TV', 'PQ', 'PQ'])
+                         ['VP', 'VP', 'TP', 'TP', 'TV', 'PQ', 'PQ', 'PQ', 'TQ'])
         P = ch.logfloat(f'c{c}.P', 4, 6)
         T = ch.float(f'c{c}.T', 300., 420.)
         V = ch.choice(f'c{c}.V.special', [None, None, 0.0, 1.0, 0.5])
         if V is None: V = ch.float(f'c{c}.V', 0.0, 1.0)
         q = ch.float(f'c{c}.q', -2e4, 6e4)
+        # duty: adiabatic (exactly 0 as int or float), or q kJ per kmol of feed (int or float)
+        qk = ch.choice(f'c{c}.Q.kind', ['float', 'zero-int', 'zero-float', 'float', 'int']) if spec[1] == 'Q' else 'float'
+        Q = q * float(F.sum())
+        if qk == 'zero-int': Q = 0
+        elif qk == 'zero-float': Q = 0.0
+        elif qk == 'int': Q = int(round(Q))
         x0 = ch.float(f'c{c}.x0', 0.02, 0.98)
         kw = {}
         if spec == 'VP': kw = dict(V=V, P=P)
         elif spec == 'TP': kw = dict(T=T, P=P)
         elif spec == 'TV': kw = dict(T=T, V=V)
-        elif spec == 'PQ': kw = dict(P=P, Q=q * float(F.sum()))
+        elif spec == 'PQ': kw = dict(P=P, Q=Q)
+        elif spec == 'TQ': kw = dict(T=T, Q=Q)
         else:
             comp = np.array([x0, 1. - x0])
             kw = {spec[0]: comp}
             if spec[1] == 'P': kw['P'] = P
             else: kw['T'] = T
         f_before = arr2(feed)
+        # feed consisting only of phase-locked chemicals (non-condensable gas): no chemical takes part in the VLE
+        lockedn = POOL[pid][1]
+        novle = bool(F.any()) and all(names[i] in lockedn for i in range(n) if F[i] > 0)
         region = (f'spec={"xy" if spec[0] in "xy" else spec},feed={fk},ms={int(use_ms)},call={c},dirty={int(dirty)}'
-                  + (',xpkg=1' if xms != 'none' else ''))
+                  + (',xpkg=1' if xms != 'none' else '') + (',novle=1' if novle else ''))
+        if novle: ctx.cell('vle:no-vle-chemical')
         ctx.cell('vle:spec=' + ('xy' if spec[0] in 'xy' else spec))
+        if spec[1] == 'Q':
+            ctx.cell('vle:Q=' + ('0' if Q == 0 else 'nonzero') + (',int' if isinstance(Q, int) else ',float'))
         if xms != 'none': ctx.cell('vle:xpkg')
+        H_feed = float(feed.H) if spec[1] == 'Q' else None
         if use_ms: ctx.cell('vle:multi_stream')
         if c: ctx.cell('vle:second-call')
-        solver_call(ctx, 'vle', f'vle solver ({spec})', sep.vle, feed, vap, liq, multi_stream=ms, region=region, **kw)
+        # "number of species must be 2" is the only assertion a valid call may meet (x / y specifications); for every
+        # other specification pair an AssertionError means the wrapper did not forward the two specifications
+        solver_call(ctx, 'vle', f'vle solver ({spec})', sep.vle, feed, vap, liq, multi_stream=ms, region=region,
+                    numerical=SOLVER_NUMERICAL if spec[0] in 'xy' else (ArithmeticError,), **kw)
         (g, gx), (l, lx) = by_cas(vap, cas), by_cas(liq, cas)
         if gx.any() or lx.any():
             ctx.fail(f'vle|{region}|foreign-chemical', f'species absent from the feed: {gx.tolist()} {lx.tolist()}')
@@ -756,6 +778,21 @@ def prop_vle(ch, ctx):
             ctx.fail(f'vle|{region}|phase', f'vap.phase={vap.phase!r} liq.phase={liq.phase!r}')
         if vap.T != liq.T or vap.P != liq.P:
             ctx.fail(f'vle|{region}|TP', f'outlet conditions differ: {vap.T!r},{liq.T!r} / {vap.P!r},{liq.P!r}')
+        if spec[1] == 'Q':
+            # energy balance of the wrapper: H(vap) + H(liq) = H(feed) + Q
+            H_out = float(vap.H) + float(liq.H)
+            F_mass = float(feed.F_mass)
+            C = float(vap.C) + float(liq.C)
+            tolH = 1e-8 * F_mass + C * 5e-8 + 1e-10 * (abs(H_feed) + abs(Q))   # H_hat_tol, C*T_tol, round-off
+            errH = abs(H_out - (H_feed + Q))
+            if spec == 'TQ':
+                # the T-H flash (pressure solved to P_tol = 1 Pa, sometimes far off) is C04's subject: recorded only
+                ctx.cell('vle:TQ-energy-' + ('ok' if errH <= tolH else 'off'))
+            else:
+                ctx.cell('vle:energy-checked')
+                if not errH <= tolH:
+                    ctx.fail(f'vle|{region}|energy', f'H(vap)+H(liq) = {H_out!r}, H(feed)+Q = {H_feed + Q!r} (Q={Q!r}, tol {tolH:.3g})')
+                ctx.metric_max('vle:energy_err/tol', errH / tolH if tolH else 0.0)
         if use_ms:
             pos = {k: i for i, k in enumerate(ms.chemicals.CASs)}
             m = arr2(ms)[:, [pos[k] for k in cas]]
